@@ -89,6 +89,42 @@ def _run(cmd, timeout, mem_gb=12, cwd=None, stdout=None):
         return 'timeout', '', time.time() - t0
 
 
+def _portfolio(cmd, outjson, timeout, mem_gb, res):
+    pre = 'ulimit -v %d; ' % (mem_gb * 1024 * 1024)
+    variants = [('minisat', cmd), ('cadical', cmd + ['--sat-solver', 'cadical'])]
+    procs = []
+    t0 = time.time()
+    for name, c in variants:
+        res.cmds.append('[portfolio:%s] ' % name + ' '.join(c))
+        f = open(outjson + '.' + name, 'wb')
+        procs.append((name, subprocess.Popen(['bash', '-c', pre + 'exec "$@"', 'x'] + c, stdout=f, stderr=subprocess.DEVNULL), f))
+    winner = None
+    while time.time() - t0 < timeout and winner is None:
+        for name, p, f in procs:
+            if p.poll() is not None and p.returncode in (0, 10):
+                winner = (name, p.returncode)
+                break
+        if winner is None:
+            if all(p.poll() is not None for _, p, _ in procs):
+                break
+            time.sleep(0.5)
+    for name, p, f in procs:
+        if p.poll() is None:
+            p.kill()
+        p.wait()
+        f.close()
+    dt = time.time() - t0
+    if winner is None:
+        if time.time() - t0 >= timeout:
+            return 'timeout', '', dt
+        # both ended abnormally: take the first output for the error message
+        shutil.copy(outjson + '.' + procs[0][0], outjson)
+        return procs[0][1].returncode, 'both portfolio members failed', dt
+    shutil.copy(outjson + '.' + winner[0], outjson)
+    res.cmds.append('[portfolio] answered by %s in %.0f s' % (winner[0], dt))
+    return winner[1], '', dt
+
+
 def classify(desc, name, file):
     if desc.startswith('CANARY'):
         return 'canary'
@@ -243,9 +279,14 @@ def run_cbmc_group(g, keep=False):
     elif backend == 'kissat':
         cmd += ['--external-sat-solver', 'kissat']
     cmd += g.extra_cbmc
-    res.cmds.append(' '.join(cmd))
-    with open(outjson, 'wb') as f:
-        rc, err, dt = _run(cmd, g.timeout, mem_gb=g.mem_gb, stdout=f)
+    if backend == 'portfolio':
+        # MiniSat and CaDiCaL on the same formula, first answer wins (neither dominates: reprioritize is 96 s /
+        # 570 s on the unchanged tree, > 1500 s / 218 s on seeded change C02-m2)
+        rc, err, dt = _portfolio(cmd, outjson, g.timeout, g.mem_gb, res)
+    else:
+        res.cmds.append(' '.join(cmd))
+        with open(outjson, 'wb') as f:
+            rc, err, dt = _run(cmd, g.timeout, mem_gb=g.mem_gb, stdout=f)
     res.solver_seconds = dt
     if rc == 'timeout':
         res.status = 'undecided'; res.reason = 'cbmc timeout after %ds' % g.timeout
